@@ -60,14 +60,15 @@ type c04Case struct {
 	Parse *c04Parse `json:"parse,omitempty"`
 	// upgrade: install + upgrade with a reuse flag (caller's map and chart afterwards)
 	Upgrade *c04Upgrade `json:"upgrade,omitempty"`
-	Tag   string    `json:"tag,omitempty"` // generator stream, for the distribution table
+	Tag     string      `json:"tag,omitempty"` // generator stream, for the distribution table
 }
 
 type c04Obs struct {
-	Err     string      `json:"err,omitempty"` // "" | "error"
-	Out     interface{} `json:"out,omitempty"`
-	Panic   string      `json:"panic,omitempty"`
-	Mutated []string    `json:"mutated,omitempty"` // inputs that differ from their snapshot afterwards
+	Err     string       `json:"err,omitempty"` // "" | "error"
+	Out     interface{}  `json:"out,omitempty"`
+	Panic   string       `json:"panic,omitempty"`
+	Mutated []string     `json:"mutated,omitempty"` // inputs that differ from their snapshot afterwards
+	Steps   []c04OptStep `json:"steps,omitempty"`   // opts: the result after each flag (frame oracle)
 }
 
 func (*c04) ID() string { return "C04" }
@@ -143,6 +144,23 @@ func (*c04) Corpus() []any {
 	out = append(out, c04Case{Kind: "opts", Tag: "corpus-opts", Opts: &c04Opts{Files: []vtree{{"a": "file1", "k": vtree{"x": int64(1)}}, {"a": "file2"}},
 		JSON: []string{`{"a":"json"}`}, Set: []string{"a=set,k.y=2"}, SetString: []string{"a=str"}, SetFile: []string{"a=" + p1}, Literal: []string{"a=lit"},
 		Contents: map[string]string{p1: "from-file"}}})
+	// the frame of an indexed flag over a list a lower source defined (seeded C04-4)
+	for _, fam := range []string{"set", "string", "literal", "json"} {
+		o := &c04Opts{Files: []vtree{{"servers": []interface{}{vtree{"port": int64(8080), "name": "a"}, vtree{"port": int64(8081)}}, "keep": "k"}}}
+		path := []c04Seg{{Key: "servers", Idx: []int{1}}, {Key: "port"}}
+		switch fam {
+		case "set":
+			o.Set = []string{"servers[1].port=9"}
+		case "string":
+			o.SetString = []string{"servers[1].port=9"}
+		case "literal":
+			o.Literal = []string{"servers[1].port=9"}
+		case "json":
+			o.JSON = []string{"servers[1].port=9"}
+		}
+		o.name(fam, 0, path)
+		out = append(out, c04Case{Kind: "opts", Tag: "corpus-opts", Opts: o})
+	}
 	fams := []string{"file", "json", "set", "string", "setfile", "literal"}
 	for i := 0; i < len(fams); i++ {
 		for j := i + 1; j < len(fams); j++ {
